@@ -62,19 +62,38 @@ type c30Rel struct {
 	f      *core.FuncInfo
 	weight *types.Var
 	snap   map[*types.Var]bool // locals of Release that hold a copy of processing taken before any store
+	// arg is the role name of the parameter: "rel" (the released amount; default) or "req" (the requested
+	// amount, in the view of tryAcquire)
+	arg string
+	// sums: locals of the functions of the view (helpers included) every definition of which is
+	// held + request for both components; their components have the role new.X
+	sums map[*types.Var]bool
+}
+
+func (r *c30Rel) argRole() string {
+	if r.arg == "" {
+		return "rel"
+	}
+	return r.arg
 }
 
 func (r *c30Rel) name(acc c30Access) string {
 	if len(acc.Path) == 1 && acc.Root != nil {
 		if acc.Root == r.weight {
-			return "rel." + short(acc.Path[0])
+			return r.argRole() + "." + short(acc.Path[0])
 		}
 		if r.snap[acc.Root] {
 			return "held." + short(acc.Path[0])
 		}
+		if r.sums[acc.Root] {
+			return "new." + short(acc.Path[0])
+		}
 	}
 	if len(acc.Path) == 2 && acc.Path[0] == c30ProcF {
 		return "held." + short(acc.Path[1])
+	}
+	if len(acc.Path) == 2 && acc.Path[0] == semT+".maxProcessing" {
+		return "max." + short(acc.Path[1])
 	}
 	return ""
 }
@@ -131,12 +150,7 @@ func (r *c30Rel) over() func(sc *c30Scope, ft core.Fact) bool {
 		ws = append(ws, core.ParseLinCmp("held."+short(comp)+" - rel."+short(comp)+" + 1 <= 0"))
 	}
 	return func(sc *c30Scope, ft core.Fact) bool {
-		for _, w := range ws {
-			if c30Implies(sc, ft, w, r.name, 2) {
-				return true
-			}
-		}
-		return false
+		return c30ImpliesAny(sc, ft, ws, c30AccessNamer(r.name), 2)
 	}
 }
 
@@ -155,12 +169,15 @@ func (r *c30Rel) classify(sc *c30Scope, e ast.Expr, comp string) string {
 		}
 		return ""
 	})
-	h, l := "held."+short(comp), "rel."+short(comp)
-	switch lin.String() {
-	case "+1*" + h + " +0":
+	h, l := "held."+short(comp), r.argRole()+"."+short(comp)
+	want := func(form string) bool { return lin.String() == core.ParseLinCmp(form+" <= 0").Form.String() }
+	switch {
+	case want(h):
 		return "held"
-	case "+1*" + h + " -1*" + l + " +0":
+	case want(h + " - " + l):
 		return "diff"
+	case want(h + " + " + l), want("new." + short(comp)):
+		return "sum"
 	}
 	return "?"
 }
@@ -192,25 +209,118 @@ func (r *c30Rel) classifyWhole(sc *c30Scope, e ast.Expr, comp string) string {
 	if _, path := c30RawPath(sc.F, e); len(path) == 1 && path[0] == c30ProcF {
 		return "held"
 	}
-	if acc, ok := sc.access(e); ok && len(acc.Path) == 0 && r.snap[acc.Root] {
-		return "held"
+	if acc, ok := sc.access(e); ok {
+		switch {
+		case len(acc.Path) == 0 && r.snap[acc.Root]:
+			return "held"
+		case len(acc.Path) == 0 && r.sums[acc.Root]:
+			return "sum"
+		case len(acc.Path) == 1 && acc.Path[0] == c30ProcF:
+			return "held" // a parameter of a helper bound to the counter
+		}
 	}
 	return "?"
 }
 
 // c30ValueDef is one assignment that can define what a store writes into component Comp of processing.
 type c30ValueDef struct {
-	Site   c30Site // the defining assignment in the view
-	Sc     *c30Scope
-	Class  string
-	Comp   string
-	Store  core.Point   // the store it reaches (== the definition itself for a direct store)
-	Redefs []core.Point // other definitions of the same local component (a path through them does not carry this value)
-	Local  bool
+	Site    c30Site // the defining assignment in the view (for a value computed by a helper: down to its return)
+	Sc      *c30Scope
+	Class   string
+	Comp    string
+	Store   core.Point   // the store it reaches (== the definition itself for a direct store)
+	Redefs  []core.Point // other definitions of the same local component (a path through them does not carry this value)
+	Local   bool
+	LocalPt core.Point // with Local: the defining assignment in Sc.F
+	// for a value given by a return of a helper called at the defining assignment
+	ret    *ast.ReturnStmt
+	callee *core.FuncInfo
+}
+
+// exprCases: the definitions that can give component comp of the struct-valued expression e, evaluated
+// at point `at` of sc.F: the expression itself, or — when it is the call of a declared function — the
+// result expressions of that function's returns, each with the chain of points that leads to it (so that
+// the guards on the way to the return count as guards of the value), or — when it is a local of sc.F —
+// the definitions of the local that reach `at`.
+func (r *c30Rel) exprCases(sc *c30Scope, e ast.Expr, at core.Point, comp string, depth int) []c30ValueDef {
+	here := c30Site{Hops: []c30Hop{{sc, at}}, Pos: posOf(at)}
+	if e != nil {
+		here.Pos = e.Pos()
+	}
+	one := func(class string) []c30ValueDef {
+		return []c30ValueDef{{Site: here, Sc: sc, Class: class, Comp: comp, Store: at}}
+	}
+	if e == nil {
+		return one("?")
+	}
+	if call, ok := ast.Unparen(e).(*ast.CallExpr); ok && depth > 0 {
+		return r.callCases(sc, call, 0, at, comp, depth)
+	}
+	if x := varOfRaw(sc.F, e); x != nil && depth > 0 && !r.snap[x] && !r.sums[x] && c30IsLocalOf(sc.F, x) {
+		if _, bound := sc.Bind[x]; !bound {
+			return r.defsOnLocal(sc, x, comp, at, depth)
+		}
+	}
+	return one(r.classifyWhole(sc, e, comp))
+}
+
+// callCases: the values result idx of the call (made at point `at` of sc.F) can have, one per return of
+// the called function.
+func (r *c30Rel) callCases(sc *c30Scope, call *ast.CallExpr, idx int, at core.Point, comp string, depth int) []c30ValueDef {
+	unknown := []c30ValueDef{{Site: c30Site{Hops: []c30Hop{{sc, at}}, Pos: call.Pos()}, Sc: sc, Class: "?", Comp: comp, Store: at}}
+	if depth <= 0 {
+		return unknown
+	}
+	sub := sc.enter(call)
+	if sub == nil {
+		return unknown
+	}
+	cases, ok := c30ResultCases(sub.F, idx)
+	if !ok {
+		return unknown
+	}
+	var out []c30ValueDef
+	for _, rc := range cases {
+		for _, d := range r.exprCases(sub, rc.Expr, rc.Pt, comp, depth-1) {
+			d.Site.Hops = append([]c30Hop{{sc, at}}, d.Site.Hops...)
+			d.Sc, d.Store, d.Local, d.Redefs = sc, at, false, nil
+			d.ret, d.callee = rc.Ret, sub.F
+			out = append(out, d)
+		}
+	}
+	return out
+}
+
+// c30IsLocalOf: x is declared in the body of f or is one of its named results.
+func c30IsLocalOf(f *core.FuncInfo, x *types.Var) bool {
+	if f.Body != nil && f.Body.Pos() <= x.Pos() && x.Pos() < f.Body.End() {
+		return true
+	}
+	return c30IsNamedResult(f, x)
+}
+
+func c30IsNamedResult(f *core.FuncInfo, x *types.Var) bool {
+	if f.Type == nil || f.Type.Results == nil {
+		return false
+	}
+	for _, fl := range f.Type.Results.List {
+		for _, nm := range fl.Names {
+			if f.Info().Defs[nm] == types.Object(x) {
+				return true
+			}
+		}
+	}
+	return false
 }
 
 // defsOnLocal: the definitions of component comp of the local x (of sc.F) that reach `to`.
 func (r *c30Rel) defsOnLocal(sc *c30Scope, x *types.Var, comp string, to core.Point, depth int) (out []c30ValueDef) {
+	return r.defsOnLocalX(sc, x, comp, to, depth, false)
+}
+
+// defsOnLocalX with before == true lists the definitions that reach `to` from before it (`to` being
+// itself a definition of the component, as in x.C -= y: what x.C is when the statement starts).
+func (r *c30Rel) defsOnLocalX(sc *c30Scope, x *types.Var, comp string, to core.Point, depth int, before bool) (out []c30ValueDef) {
 	g := sc.F
 	type ldef struct {
 		a     assignment
@@ -226,6 +336,17 @@ func (r *c30Rel) defsOnLocal(sc *c30Scope, x *types.Var, comp string, to core.Po
 			all = append(all, ldef{d, false})
 		}
 	}
+	var allPts []core.Point
+	for _, d := range all {
+		allPts = append(allPts, d.a.Pt)
+	}
+	if c30IsNamedResult(g, x) {
+		// a named result starts as the zero value
+		if _, reaches := (core.PathQuery{F: g, From: g.Entry(), Target: core.PointSet(to), Avoid: core.PointSet(allPts...)}).Find(); reaches {
+			out = append(out, c30ValueDef{Sc: sc, Class: "zero", Comp: comp, Store: to, Redefs: allPts, Local: true, LocalPt: g.Entry(),
+				Site: c30Site{Hops: []c30Hop{{sc, g.Entry()}}, Pos: x.Pos()}})
+		}
+	}
 	for i, d := range all {
 		var others []core.Point
 		for j, o := range all {
@@ -233,10 +354,20 @@ func (r *c30Rel) defsOnLocal(sc *c30Scope, x *types.Var, comp string, to core.Po
 				others = append(others, o.a.Pt)
 			}
 		}
-		if d.a.Pt != to {
-			if _, reaches := (core.PathQuery{F: g, From: d.a.Pt, FromAfter: true, Target: core.PointSet(to), Avoid: core.PointSet(others...)}).Find(); !reaches {
+		if d.a.Pt != to || before {
+			var avoid []core.Point
+			for _, o := range others {
+				if o != to {
+					avoid = append(avoid, o)
+				}
+			}
+			if _, reaches := (core.PathQuery{F: g, From: d.a.Pt, FromAfter: true, Target: core.PointSet(to), Avoid: core.PointSet(avoid...)}).Find(); !reaches {
 				continue
 			}
+		}
+		local := func(class string) c30ValueDef {
+			return c30ValueDef{Sc: sc, Class: class, Comp: comp, Store: to, Redefs: others, Local: true, LocalPt: d.a.Pt,
+				Site: c30Site{Hops: []c30Hop{{sc, d.a.Pt}}, Pos: d.a.Stmt.Pos()}}
 		}
 		class := "?"
 		switch {
@@ -245,14 +376,39 @@ func (r *c30Rel) defsOnLocal(sc *c30Scope, x *types.Var, comp string, to core.Po
 				class = "zero" // var x dag.Metric
 			}
 		case d.whole:
-			class = r.classifyWhole(sc, d.a.RHS, comp)
+			call, isCall := ast.Unparen(d.a.RHS).(*ast.CallExpr)
+			if !isCall || depth <= 0 {
+				class = r.classifyWhole(sc, d.a.RHS, comp)
+				break
+			}
+			// x (, ok) := helper(…): one definition per return of the helper; a return is left out when
+			// the paths to `to` are taken only with a sibling result it does not give
+			idx := 0
+			if as, isAssign := d.a.Stmt.(*ast.AssignStmt); isAssign && len(as.Lhs) != len(as.Rhs) {
+				for k, l := range as.Lhs {
+					if l == d.a.LHS {
+						idx = k
+					}
+				}
+			}
+			for _, cd := range r.callCases(sc, call, idx, d.a.Pt, comp, depth-1) {
+				if cd.callee != nil && d.a.Pt != to && c30SiblingExcludes(g, call, d.a.Pt, cd.callee, cd.ret, to) {
+					continue
+				}
+				cd.Store, cd.Redefs, cd.Local, cd.LocalPt = to, others, true, d.a.Pt
+				out = append(out, cd)
+			}
+			continue
 		case d.a.Tok == token.ASSIGN:
 			class = r.classify(sc, d.a.RHS, comp)
-		case d.a.Tok == token.SUB_ASSIGN && depth > 0:
-			// x.C -= rel.C: the difference when everything that reaches it is the held amount
-			if acc, ok := sc.access(d.a.RHS); ok && r.name(acc) == "rel."+short(comp) {
-				base := r.defsOnLocal(sc, x, comp, d.a.Pt, depth-1)
+		case (d.a.Tok == token.SUB_ASSIGN || d.a.Tok == token.ADD_ASSIGN) && depth > 0:
+			// x.C -= rel.C / x.C += req.C: the difference / sum when everything that reaches it is the held amount
+			if acc, ok := sc.access(d.a.RHS); ok && r.name(acc) == r.argRole()+"."+short(comp) {
+				base := r.defsOnLocalX(sc, x, comp, d.a.Pt, depth-1, true)
 				class = "diff"
+				if d.a.Tok == token.ADD_ASSIGN {
+					class = "sum"
+				}
 				for _, b := range base {
 					if b.Class != "held" {
 						class = "?"
@@ -263,8 +419,7 @@ func (r *c30Rel) defsOnLocal(sc *c30Scope, x *types.Var, comp string, to core.Po
 				}
 			}
 		}
-		out = append(out, c30ValueDef{Sc: sc, Class: class, Comp: comp, Store: to, Redefs: others, Local: true,
-			Site: c30Site{Hops: []c30Hop{{sc, d.a.Pt}}, Pos: d.a.Stmt.Pos()}})
+		out = append(out, local(class))
 	}
 	return out
 }
@@ -325,14 +480,11 @@ func c30OverRelease(c *core.Ctx) {
 			case len(lpath) == 2 && a.Tok == token.ASSIGN:
 				direct(r.classify(sc, a.RHS, comp))
 			case len(lpath) == 1 && a.Tok == token.ASSIGN:
-				x := varOfRaw(sc.F, a.RHS)
-				if x != nil && !r.snap[x] && sc.F.Body.Pos() <= x.Pos() && x.Pos() < sc.F.Body.End() {
-					for _, d := range r.defsOnLocal(sc, x, comp, a.Pt, 2) {
-						d.Site.Hops = append(append([]c30Hop(nil), prefix...), d.Site.Hops...)
-						defs = append(defs, d)
-					}
-				} else {
-					direct(r.classifyWhole(sc, a.RHS, comp))
+				// the value of a local (its reaching definitions), of a helper call (one per return of the
+				// helper), or of the expression itself
+				for _, d := range r.exprCases(sc, a.RHS, a.Pt, comp, 3) {
+					d.Site.Hops = append(append([]c30Hop(nil), prefix...), d.Site.Hops...)
+					defs = append(defs, d)
 				}
 			default:
 				direct("?")
@@ -358,10 +510,9 @@ func c30OverRelease(c *core.Ctx) {
 			if !ok && d.Local {
 				// a zero defined before the branch: it must reach the store only over an over-release edge
 				g := d.Sc.F
-				last := d.Site.Hops[len(d.Site.Hops)-1]
 				edges := g.GuardEdges(func(ft core.Fact) bool { return over(d.Sc, ft) })
 				var found bool
-				wit, found = core.PathQuery{F: g, From: last.Pt, FromAfter: true, Target: core.PointSet(d.Store), Avoid: core.PointSet(d.Redefs...), AvoidEdge: edges}.Find()
+				wit, found = core.PathQuery{F: g, From: d.LocalPt, FromAfter: true, Target: core.PointSet(d.Store), Avoid: core.PointSet(d.Redefs...), AvoidEdge: edges}.Find()
 				ok = !found
 			}
 			c.Check(ok, "zero "+cn+" only on over-release", "reaching definition + T4 GuardedBy", d.Site.Pos,
